@@ -121,11 +121,11 @@ func getC05PKI() *c05PKI {
 			return p.mkLeaf(signer, cn, dns, ips, nb, na, usage)
 		}
 		goodNames := []string{"server.test", "localhost"}
-		goodIPs := []net.IP{net.ParseIP("127.0.0.1")}
+		goodIPs := []net.IP{net.ParseIP("127.0.0.1"), net.ParseIP("::1")}
 		var goodKey *ecdsa.PrivateKey
 		p.server["good"], goodKey = mkLeaf(caA, "server.test", goodNames, goodIPs, false, x509.ExtKeyUsageServerAuth)
 		p.server["nameonly"], _ = mkLeaf(caA, "server.test", goodNames, nil, false, x509.ExtKeyUsageServerAuth)
-		p.server["iponly"], _ = mkLeaf(caA, "ip-only", nil, goodIPs, false, x509.ExtKeyUsageServerAuth) // histories (tlshist) only
+		p.server["iponly"], _ = mkLeaf(caA, "ip-only", nil, []net.IP{net.ParseIP("127.0.0.1")}, false, x509.ExtKeyUsageServerAuth) // histories (tlshist) only
 		p.server["wronghost"], _ = mkLeaf(caA, "other.test", []string{"other.test"}, []net.IP{net.ParseIP("10.9.9.9")}, false, x509.ExtKeyUsageServerAuth)
 		p.server["untrusted"], _ = mkLeaf(caB, "server.test", goodNames, goodIPs, false, x509.ExtKeyUsageServerAuth)
 		p.server["expired"], _ = mkLeaf(caA, "server.test", goodNames, goodIPs, true, x509.ExtKeyUsageServerAuth)
@@ -226,7 +226,7 @@ func c05outsideValidity(class string) bool {
 // certificate signed now by CA A for the names of "good".
 func (p *c05PKI) serverLeaf(class string) c05Leaf {
 	if nb, na, ok := c05boundaryPeriod(class, time.Now()); ok {
-		l, _ := p.mkLeaf(p.cas["A"], "server.test", []string{"server.test", "localhost"}, []net.IP{net.ParseIP("127.0.0.1")}, nb, na, x509.ExtKeyUsageServerAuth)
+		l, _ := p.mkLeaf(p.cas["A"], "server.test", []string{"server.test", "localhost"}, []net.IP{net.ParseIP("127.0.0.1"), net.ParseIP("::1")}, nb, na, x509.ExtKeyUsageServerAuth)
 		return l
 	}
 	return p.server[class]
